@@ -127,6 +127,13 @@ def _extra_configs(tier):
     # text behaves like the design
     for kind in ('wire', 'inst'):
         out.append({'block': 'PrefixClash', 'kind': kind})
+    # a register whose data input is narrower than its output, with a reset value that needs the full output width
+    for dw, w in ((1, 2), (1, 3), (2, 3)):
+        out.append({'block': 'RegNarrowD', 'dw': dw, 'w': w, 'rv': (1 << w) - 1})
+        out.append({'block': 'RegNarrowD', 'dw': dw, 'w': w, 'rv': 1 << dw})
+    # an adder whose carry input is wider than one bit (the whole value is added)
+    for cw in (2, 3):
+        out.append({'block': 'AddWideCarry', 'w': 2, 'cw': cw})
     # chains: output of one block feeding the next
     firsts = ['Add', 'Sub', 'Mul', 'Not', 'Reg', 'Counter', 'ShiftLeft', 'Mux2', 'Neg', 'SignExtend']
     seconds = ['Add', 'Sub', 'Not', 'Reg', 'Equal', 'Abs', 'ShiftRight', 'Range', 'EqualConstant', 'Comparator']
@@ -272,6 +279,10 @@ def _build_extra(d):
         for part in ((base_part, gated_part) if d['first'] == 'base' else (gated_part, base_part)):
             part()
         outs.append(('m', m))
+    elif b == 'RegNarrowD':
+        P.Reg(hw, 'dut', I('d', d['dw']), O('q', d['w']), enable=I('e'), reset=I('rst'), reset_value=d['rv'])
+    elif b == 'AddWideCarry':
+        P.Add(hw, 'dut', I('a', d['w']), I('b', d['w']), O('r', d['w'] + 2), ci=I('ci', d['cw']))
     elif b == 'PrefixClash':
         a, x, r = I('a'), I('x'), O('r')
         blk = Logic(hw, 'blk')
